@@ -19,6 +19,7 @@ type Callback struct {
 	M    Mapper
 	P    Pred
 	R    Reducer
+	Mut  bool // modifies its parameters in place (see mutcb.go)
 }
 
 type Arg struct {
